@@ -1,4 +1,4 @@
-import DoraModel.Wait.MtxInv11
+import DoraModel.Wait.MtxInv12
 /-! # C09 — the invariants hold in every reachable state; running a trace stays reachable -/
 namespace Dora.Wait.Mtx
 
@@ -85,5 +85,18 @@ theorem Reach.jinv (hr : Reach n s) (hnp : s.pcs.countP isPanicked = 0) : JInv s
     obtain ⟨pc, hpc, hst⟩ := accept_stepAt ha
     have hnp0 := nopanic_back hpc hst hnp
     exact jinv_step (ih hnp0) (hprev.cinv hnp0) (hprev.qinv hnp0) hpc hst hnp
+
+theorem Reach.wle (hr : Reach n s) : s.w ≤ 2 := by
+  induction hr with
+  | init => simp [Mtx.init]
+  | step _ ha ih => obtain ⟨pc, _, hst⟩ := accept_stepAt ha; exact wle_step ih hst
+
+/-- no reachable state has a panicked thread -/
+theorem Reach.nopanic (hr : Reach n s) : s.pcs.countP isPanicked = 0 := by
+  induction hr with
+  | init => rw [List.countP_eq_zero]; intro a ha; simp [Mtx.init] at ha; rw [ha.2]; simp [isPanicked]
+  | step hprev ha ih =>
+    obtain ⟨pc, hpc, hst⟩ := accept_stepAt ha
+    exact nopanic_step hprev.kinv hprev.basic (hprev.qinv ih) hprev.wle ih hpc hst
 
 end Dora.Wait.Mtx
